@@ -245,6 +245,16 @@ struct DtDur {
     nanos: i32,
 }
 
+/// Date + whole days of a duration (truncated toward zero), None when out of range.
+fn wdate_pre(base: &(i64, i64, i64, i128), ns: i128) -> Option<(i64, i64, i64)> {
+    let dn = rc::to_days(base.0, base.1, base.2) as i128 + ns / NS_PER_DAY;
+    if ra::days_in_range(dn) {
+        Some(rc::from_days(dn as i64))
+    } else {
+        None
+    }
+}
+
 fn test_durations(c: &DtDur, cx: &mut Cx) -> CaseResult {
     let date = gen::mk_date(c.ymd.0, c.ymd.1, c.ymd.2);
     let time = gen::mk_time(c.tod);
@@ -274,6 +284,24 @@ fn test_durations(c: &DtDur, cx: &mut Cx) -> CaseResult {
         let mut g = dt;
         g -= d;
         ensure!(dt_fields(dt - d) == w && dt_fields(g) == w, "datetime-duration-operators-wrong", "{ctx}: - / -= give {} / {g} want {w:?}", dt - d);
+    }
+    if let Some(w) = wdate_pre(&base, ns) {
+        let mut g = date;
+        g += d;
+        ensure!(ymd_of(date + d) == w && ymd_of(g) == w, "date+duration-operators-wrong", "{ctx}: date + / += give {} / {g} want {w:?}", date + d);
+    }
+    if let Some(w) = wdate_pre(&base, -ns) {
+        let mut g = date;
+        g -= d;
+        ensure!(ymd_of(date - d) == w && ymd_of(g) == w, "date-duration-operators-wrong", "{ctx}: date - / -= give {} / {g} want {w:?}", date - d);
+    }
+    {
+        let (mut ta, mut ts2) = (time, time);
+        ta += d;
+        ts2 -= d;
+        let wrap = (base.3 + ns).rem_euclid(NS_PER_DAY);
+        let wrap_sub = (base.3 - ns).rem_euclid(NS_PER_DAY);
+        ensure!(tod_of(time + d) == wrap && tod_of(ta) == wrap && tod_of(time - d) == wrap_sub && tod_of(ts2) == wrap_sub, "time-duration-operators-wrong", "{ctx}: time operators with SignedDuration disagree with wrapping arithmetic");
     }
     // saturating_sub clamps in the direction of the *negated* operand
     let sat = dt.saturating_sub(d);
@@ -331,6 +359,33 @@ fn test_durations(c: &DtDur, cx: &mut Cx) -> CaseResult {
         ensure!(dt_fields(dt.saturating_sub(u)) == w, "datetime.saturating_sub(std)-wrong", "{ctx}: saturating_sub(std) = {} want {w:?}", dt.saturating_sub(u));
         let w = want.unwrap_or(dt_fields(DateTime::MAX));
         ensure!(dt_fields(dt.saturating_add(u)) == w, "datetime.saturating_add(std)-wrong", "{ctx}: saturating_add(std) = {} want {w:?}", dt.saturating_add(u));
+        // operator forms with an unsigned duration (panic on overflow: only when in range)
+        if let Some(w) = want {
+            let mut g = dt;
+            g += u;
+            ensure!(dt_fields(dt + u) == w && dt_fields(g) == w, "datetime+std-operators-wrong", "{ctx}: + / += std give {} / {g} want {w:?}", dt + u);
+        }
+        if let Some(w) = wsub {
+            let mut g = dt;
+            g -= u;
+            ensure!(dt_fields(dt - u) == w && dt_fields(g) == w, "datetime-std-operators-wrong", "{ctx}: - / -= std give {} / {g} want {w:?}", dt - u);
+        }
+        if let Some(w) = wdate {
+            let mut g = date;
+            g += u;
+            ensure!(ymd_of(date + u) == w && ymd_of(g) == w, "date+std-operators-wrong", "{ctx}: date + / += std give {} / {g} want {w:?}", date + u);
+        }
+        if let Some(w) = wdate_sub {
+            let mut g = date;
+            g -= u;
+            ensure!(ymd_of(date - u) == w && ymd_of(g) == w, "date-std-operators-wrong", "{ctx}: date - / -= std give {} / {g} want {w:?}", date - u);
+        }
+        {
+            let (mut ta, mut ts2) = (time, time);
+            ta += u;
+            ts2 -= u;
+            ensure!(tod_of(time + u) == wrap && tod_of(ta) == wrap && tod_of(time - u) == wrap_sub && tod_of(ts2) == wrap_sub, "time-std-operators-wrong", "{ctx}: time operators with std Duration disagree with wrapping arithmetic");
+        }
     }
     Ok(())
 }
